@@ -48,6 +48,10 @@ pub struct StreamPlan {
     pub start_us: u64,
     pub fwd: Flow,
     pub back: Option<Flow>,
+    /// bidi only: bit 0 = the opener, bit 1 = the acceptor joins the two halves into a
+    /// `BiStream` and uses it through tokio's AsyncRead / AsyncWrite (split into halves)
+    #[serde(default)]
+    pub via_bistream: u8,
 }
 
 #[derive(Serialize, Deserialize, Clone, Debug)]
@@ -182,11 +186,12 @@ pub fn gen_plan(seed: u64, faulty: bool, tier: Tier) -> Plan {
             start_us: if rng.coin() { 0 } else { rng.range(0, 50_000) },
             fwd,
             back,
+            via_bistream: if bidi && rng.chance_pm(300) { rng.range(1, 3) as u8 } else { 0 },
         });
     }
     if streams.is_empty() {
         let fwd = gen_flow(&mut rng, sk.stream_recv_window, max_len);
-        streams.push(StreamPlan { opener_is_client: true, bidi: false, start_us: 0, fwd, back: None });
+        streams.push(StreamPlan { opener_is_client: true, bidi: false, start_us: 0, fwd, back: None, via_bistream: 0 });
     }
     let read_cap = if rng.chance_pm(250) { rng.usize(1, 3) } else { 0 };
     // "credit residue" mode: a bulk stream that is not read for a while eats the acceptor's
@@ -206,7 +211,7 @@ pub fn gen_plan(seed: u64, faulty: bool, tier: Tier) -> Plan {
         bulk.len = bulk_len;
         bulk.writes = vec![WOp { n: bulk_len, mode: 1, pause_us: 0 }];
         bulk.read_start_delay_us = rng.range(150_000, 400_000);
-        streams.push(StreamPlan { opener_is_client, bidi: false, start_us: 0, fwd: bulk, back: None });
+        streams.push(StreamPlan { opener_is_client, bidi: false, start_us: 0, fwd: bulk, back: None, via_bistream: 0 });
         for _ in 0..rng.usize(1, 3) {
             let bidi = rng.coin();
             let mut fwd = gen_flow(&mut rng, 64, 300);
@@ -215,7 +220,7 @@ pub fn gen_plan(seed: u64, faulty: bool, tier: Tier) -> Plan {
                 fwd.writes = vec![WOp { n: fwd.len, mode: rng.below(3) as u8, pause_us: 0 }];
             }
             let back = if bidi { Some(gen_flow(&mut rng, 64, 300)) } else { None };
-            streams.push(StreamPlan { opener_is_client, bidi, start_us: rng.range(40_000, 120_000), fwd, back });
+            streams.push(StreamPlan { opener_is_client, bidi, start_us: rng.range(40_000, 120_000), fwd, back, via_bistream: 0 });
         }
     }
     // partitions that heal, slow nodes and a NAT rebind (fault batch only; every window is far
@@ -281,6 +286,102 @@ async fn write_flow(send: &mut SendStream, flow: &Flow) -> Result<(), FlowResult
     match send.finish().await {
         Ok(()) => Ok(()),
         Err(e) => Err(classify_io(&format!("{e:?}"), "finish")),
+    }
+}
+
+/// The same flow through tokio's traits on any object (used for `BiStream`).
+async fn write_flow_io<W: tokio::io::AsyncWrite + Unpin>(w: &mut W, flow: &Flow) -> Result<(), FlowResult> {
+    let data = pattern(flow.key, flow.len);
+    let mut off = 0;
+    for op in &flow.writes {
+        let chunk = &data[off..off + op.n];
+        let res: Result<(), String> = if op.mode == 0 {
+            let mut done = 0;
+            let mut r = Ok(());
+            while done < chunk.len() {
+                match AsyncWriteExt::write(w, &chunk[done..]).await {
+                    Ok(0) => {
+                        r = Err("write returned 0".to_string());
+                        break;
+                    }
+                    Ok(n) => done += n,
+                    Err(e) => {
+                        r = Err(format!("{e:?}"));
+                        break;
+                    }
+                }
+            }
+            r
+        } else {
+            AsyncWriteExt::write_all(w, chunk).await.map_err(|e| format!("{e:?}"))
+        };
+        if let Err(e) = res {
+            return Err(classify_io(&e, "BiStream write"));
+        }
+        off += op.n;
+        if op.pause_us > 0 {
+            tokio::time::sleep(Duration::from_micros(op.pause_us)).await;
+        }
+    }
+    let _ = AsyncWriteExt::flush(w).await;
+    match AsyncWriteExt::shutdown(w).await {
+        Ok(()) => Ok(()),
+        Err(e) => Err(classify_io(&format!("{e:?}"), "BiStream shutdown")),
+    }
+}
+
+async fn read_flow_io<R: tokio::io::AsyncRead + Unpin>(r: &mut R, flow: &Flow) -> FlowResult {
+    if flow.read_start_delay_us > 0 {
+        tokio::time::sleep(Duration::from_micros(flow.read_start_delay_us)).await;
+    }
+    let expected = pattern(flow.key, flow.len);
+    let mut off = 0usize;
+    let mut i = 0usize;
+    let mut pauses_left = 40;
+    loop {
+        let op = &flow.reads[i % flow.reads.len()];
+        i += 1;
+        let remaining = expected.len() - off.min(expected.len());
+        let mut buf = vec![0u8; op.buf.max(1)];
+        let got: Result<usize, String> = if op.mode == 1 && remaining > 0 {
+            let k = op.buf.max(1).min(remaining);
+            AsyncReadExt::read_exact(r, &mut buf[..k]).await.map_err(|e| format!("BiStream read_exact: {e:?}"))
+        } else {
+            AsyncReadExt::read(r, &mut buf).await.map_err(|e| format!("BiStream read: {e:?}"))
+        };
+        match got {
+            Err(e) => {
+                return if e.contains("NotConnected") || e.contains("NotConn") || e.contains("not connected") {
+                    FlowResult::ConnLost(e)
+                } else {
+                    FlowResult::Bad("C01/unexpected-stream-error".into(), e)
+                };
+            }
+            Ok(0) => {
+                if off != expected.len() {
+                    return FlowResult::Bad("C01/truncated".into(), format!("BiStream: end-of-stream after {off} of {} bytes", expected.len()));
+                }
+                let mut b = [0u8; 8];
+                return match AsyncReadExt::read(r, &mut b).await {
+                    Ok(0) => FlowResult::Ok { bytes: off },
+                    other => FlowResult::Bad("C01/data-after-eof".into(), format!("BiStream: read after end-of-stream returned {other:?}")),
+                };
+            }
+            Ok(n) => {
+                if off + n > expected.len() {
+                    return FlowResult::Bad("C01/extra-bytes".into(), format!("BiStream: received {} bytes beyond the {} written", off + n - expected.len(), expected.len()));
+                }
+                if buf[..n] != expected[off..off + n] {
+                    let pos = (0..n).find(|&j| buf[j] != expected[off + j]).unwrap();
+                    return FlowResult::Bad("C01/bytes-mismatch".into(), format!("BiStream: stream byte {} is {:#04x}, expected {:#04x} (len {})", off + pos, buf[pos], expected[off + pos], expected.len()));
+                }
+                off += n;
+            }
+        }
+        if op.pause_us > 0 && pauses_left > 0 {
+            pauses_left -= 1;
+            tokio::time::sleep(Duration::from_micros(op.pause_us)).await;
+        }
     }
 }
 
@@ -458,6 +559,21 @@ fn spawn_acceptors(
                 let sp = &plan.streams[i];
                 let back = sp.back.as_ref().expect("bidi has back flow");
                 let tx2 = tx.clone();
+                if sp.via_bistream & 2 != 0 {
+                    let (mut rh, mut wh) = tokio::io::split(wtransport::stream::BiStream::join((send, recv)));
+                    let w = async {
+                        if let Err(r) = write_flow_io(&mut wh, back).await {
+                            let _ = tx2.send(r);
+                        }
+                    };
+                    let r = async {
+                        let r = read_flow_io(&mut rh, &sp.fwd).await;
+                        net.note(&format!("flow-done idx={i} fwd {}", r.kind()));
+                        let _ = tx.send(r);
+                    };
+                    tokio::join!(w, r);
+                    return;
+                }
                 let w = async {
                     if let Err(r) = write_flow(&mut send, back).await {
                         let _ = tx2.send(r);
@@ -493,6 +609,21 @@ async fn open_stream(
                 reg.lock().unwrap().insert((sp.opener_is_client, send.id().into_u64()), idx);
                 net.note(&format!("opened-bi idx={idx} id={}", send.id().into_u64()));
                 let tx2 = tx.clone();
+                if sp.via_bistream & 1 != 0 {
+                    let (mut rh, mut wh) = tokio::io::split(wtransport::stream::BiStream::join((send, recv)));
+                    let w = async {
+                        if let Err(r) = write_flow_io(&mut wh, &sp.fwd).await {
+                            let _ = tx2.send(r);
+                        }
+                    };
+                    let r = async {
+                        let r = read_flow_io(&mut rh, sp.back.as_ref().unwrap()).await;
+                        net.note(&format!("flow-done idx={idx} back {}", r.kind()));
+                        let _ = tx.send(r);
+                    };
+                    tokio::join!(w, r);
+                    return;
+                }
                 let w = async {
                     if let Err(r) = write_flow(&mut send, &sp.fwd).await {
                         let _ = tx2.send(r);
@@ -617,6 +748,7 @@ pub fn execute(plan: &Plan, trace: bool) -> Exec {
     ex.probe("loop_iters", out.loop_iters);
     ex.probe("torn_read_futures", out.torn_reads);
     ex.fault("short_read_cap_runs", (plan.read_cap > 0) as u64);
+    ex.probe("streams_used_through_bistream", plan.streams.iter().filter(|s| s.via_bistream > 0).count() as u64);
     if !out.panics.is_empty() {
         ex.violation("C01/panic", out.panics.join(" | "));
         return ex;
@@ -876,7 +1008,7 @@ pub fn def() -> PropertyDef {
             Box::new(Typed(C01E2E { faulty: true })),
             Box::new(Typed(C01Raw)),
         ],
-        rule: "Each run: real wtransport client and server over the simulated network, 1-12 concurrent streams over the roles {client,server} x {uni, bidi (both directions)}, payload lengths boundary-biased from 0 to 3 flow-control windows (windows are per-run knobs), generated write partitions (write / write_all / tokio AsyncWrite) and read partitions (read / read_exact / tokio AsyncRead, buffers 1 B..64 KiB) with pauses, optional 1-3 byte short-read cap on protocol-level reads; the fault batch adds loss / duplication / reordering / corruption for the first 30 s plus 0-3 scripted link events: two-way or one-way partitions of 20 ms-4 s that heal, inbound stalls of 5-400 ms at either node, NAT rebinds of the client. A run is non-trivial when the session was established, at least one flow was verified byte-for-byte to end-of-stream with >0 bytes and (fault sub-batch) at least one network fault fired; distinct = distinct plan hashes among those. raw-preamble-segmentation: the scripted raw peer (both roles) opens 1-4 WebTransport uni / bidi streams whose preamble (type / signal + session id encoded on 1, 2, 4 or 8 bytes) and payload (0..5000 B) are written in 1-4 pieces with network quiescence between the pieces (cuts mostly inside the preamble), optionally under the short-read cap; the application must read exactly the payload of every stream and be handed nothing else.",
+        rule: "Each run: real wtransport client and server over the simulated network, 1-12 concurrent streams over the roles {client,server} x {uni, bidi (both directions)}, payload lengths boundary-biased from 0 to 3 flow-control windows (windows are per-run knobs), generated write partitions (write / write_all / tokio AsyncWrite) and read partitions (read / read_exact / tokio AsyncRead, buffers 1 B..64 KiB) with pauses, a third of the bidirectional streams joined into a BiStream on either side and used through tokio's AsyncRead / AsyncWrite, optional 1-3 byte short-read cap on protocol-level reads; the fault batch adds loss / duplication / reordering / corruption for the first 30 s plus 0-3 scripted link events: two-way or one-way partitions of 20 ms-4 s that heal, inbound stalls of 5-400 ms at either node, NAT rebinds of the client. A run is non-trivial when the session was established, at least one flow was verified byte-for-byte to end-of-stream with >0 bytes and (fault sub-batch) at least one network fault fired; distinct = distinct plan hashes among those. raw-preamble-segmentation: the scripted raw peer (both roles) opens 1-4 WebTransport uni / bidi streams whose preamble (type / signal + session id encoded on 1, 2, 4 or 8 bytes) and payload (0..5000 B) are written in 1-4 pieces with network quiescence between the pieces (cuts mostly inside the preamble), optionally under the short-read cap; the application must read exactly the payload of every stream and be handed nothing else.",
         assumptions: vec![
             "quinn, quinn-proto, rustls, ring and tokio are executed for real but trusted: a QUIC-level data loss would be attributed to wtransport until triaged",
             "parallelism is modelled as interleaving at await points on a current-thread runtime; data races inside tokio/quinn primitives are out of scope",
